@@ -18,6 +18,9 @@ FIRST = {
     "C10-C": "caught", "C10-D": "missed", "C12-C": "caught", "C12-D": "missed", "C19-A": "missed", "C19-B": "missed",
     # fourth wave
     "C04-C": "caught", "C04-D": "missed (C07, C11 caught)", "C09-C": "caught", "C09-D": "missed", "C11-C": "missed (C10 caught)", "C11-D": "missed",
+    "C06-C": "missed (same construct as the known finding)", "C06-D": "missed (same construct as the known finding)",
+    "C08-C": "missed", "C08-D": "caught", "C15-C": "missed", "C15-D": "caught", "C17-C": "caught", "C17-D": "missed",
+    "C20-C": "missed", "C20-D": "missed",
 }
 
 
